@@ -36,6 +36,16 @@ THEOREMS = [
     "C28_kill_points",
     "C28_killed_run_recovers",
     "C28_seed_window_witness",
+    "C28_run_refines_trace",
+    "C28_never_recorded_twice",
+    "C28_any_sources_each_version_once",
+    "C28_failed_run_in_full",
+    "C28_failed_run_is_fixed_point",
+    "C28_second_package_converges",
+    "C28_production_shape",
+    "C28_production_table",
+    "C28_production_converges",
+    "C28_start_states_consistent",
 ]
 LEAN_TARGETS = ["WfProps.C28"]
 EXPLANATION = (
@@ -64,7 +74,16 @@ EXPLANATION = (
     "leave. K: ops session / durables / pick (every run a process start on a file, observed through a new connection; "
     "all kill points of a run enumerated on copies of the file). S: after run_migrations returned and the connection was "
     "closed without commit the RE-OPENED file has the fresh schema and every version once, and the next process start "
-    "changes nothing; a restart after a kill at any point converges (one classified window excepted, see notes)."
+    "changes nothing; a restart after a kill at any point converges (one classified window excepted, see notes). "
+    "Whole runs for ANY sources and ANY database (WfProofs/MigrateHist.lean): a run, returned or raised, is a trace of "
+    "(package, script) pairs applied in order whose keys are exactly the new rows (C28_run_refines_trace); no duplicate row is "
+    "ever created (C28_never_recorded_twice: the INSERT never meets the primary key); success records every non-zero version "
+    "of every source exactly once (C28_any_sources_each_version_once); a failed run names a file of a source whose version "
+    "is not recorded and is a fixed point of re-running (C28_failed_run_in_full, C28_failed_run_is_fixed_point). Two packages: "
+    "C28_second_package_converges (generic) and C28_production_converges for the call DBOSRuntime.run_migrations makes "
+    "(sources=_SQLITE_SOURCES: server then dbos), over the regenerated dbos directory and the regenerated sources list "
+    "(C28_production_shape / C28_production_table); K ops c28prodtable / c28prodrun / c28prodsession against the real "
+    "run_migrations with the real source tuples and the real packaged directories; S production_* monitors."
 )
 LEVEL_TEXT = "proof (generic theorems + decide on the regenerated table) + op-by-op correspondence + direct monitors"
 ASSUMPTIONS = [
@@ -1250,6 +1269,146 @@ def run_life(ctx: Ctx, fam: dict, st: dict, F: dict) -> None:
         out.sample({"family": fam.get("label", fam["kind"]), "start": st_brief(st), "life": life, "result": line(res1, c1)[:160]}, cap=12)
 
 
+# --------------------------------------------------------------------------
+# the production call with two sources: DBOSRuntime.run_migrations passes sources=_SQLITE_SOURCES (server, dbos)
+
+
+def production_sources(ctx: Ctx) -> tuple[list[tuple[str, str]], list[list[tuple[str, str]]]] | None:
+    """-> ([(package, module)] exactly as runtime.py lists them, each the REAL tuple object's value imported from the
+    real store `__init__`; [directory listing of each module])"""
+    from ..gen.migrate import DBOS_MIGRATIONS_DIR, extract_production_sources
+
+    notes: list[str] = []
+    prod = extract_production_sources(notes)
+    if notes or not prod["passed"]:
+        ctx.out.notes.append("production sources not resolvable from runtime.py: " + "; ".join(notes))
+        return None
+    real: list[tuple[str, str]] = []
+    for mod_name in prod["modules"]:
+        store = importlib.import_module(mod_name.rsplit(".", 2)[0])  # ...._store
+        tup = tuple(store.SQLITE_MIGRATION_SOURCE)
+        if tup[1] != mod_name:
+            ctx.out.notes.append(f"production source {mod_name}: store constant says {tup!r}")
+            return None
+        real.append((tup[0], tup[1]))
+    dirs = []
+    for rel in (MIGRATIONS_DIR, DBOS_MIGRATIONS_DIR):
+        d = repo_path(rel)
+        lst = []
+        for n in sorted(os.listdir(d)):
+            q = os.path.join(d, n)
+            if os.path.isfile(q):
+                with open(q, encoding="utf-8") as f:
+                    lst.append((n, f.read()))
+        dirs.append(lst)
+    return real, dirs
+
+
+def run_production(ctx: Ctx, rng: random.Random, nrandom: int) -> None:
+    out = ctx.out
+    got = production_sources(ctx)
+    if got is None:
+        out.violations.append(Violation("C28/production_sources_unresolved",
+                                        "the sources= list of DBOSRuntime.run_migrations could not be resolved", {"production": True}))
+        return
+    real, dirs = got
+    utils = ctx.utils
+    orders = []
+    for (_p, mod) in real:
+        order = []
+        for path in utils.iter_migration_files(mod):  # the REAL packaged directories, through importlib.resources
+            t = path.read_text()
+            order.append((path.name, t, utils.parse_target_version(t) or 0))
+        orders.append(order)
+    table = " | ".join(p + "=" + " ".join(f"{n}:{v}:<{';'.join(show_stmt(s_) for s_ in parse_sql(t))}>" for n, t, v in order)
+                       for (p, _m), order in zip(real, orders))
+    ctx.op("c28prodtable", table, {"production": True, "what": "generated production table vs current files"})
+    order0 = orders[0]
+    n = len(order0)
+    texts = {t: nm for order in orders for nm, t, _v in order}
+    starts: list[dict] = [{"legacy": None, "prefixes": []}]
+    starts += [{"legacy": k, "prefixes": []} for k in range(0, n + 2)]
+    starts += [{"legacy": None, "prefixes": [j]} for j in range(0, n + 1)]
+    starts += [{"legacy": k, "prefixes": [j]} for k in range(1, n) for j in (k, n)]
+    starts += [{"legacy": None, "prefixes": [], "server_first": True}, {"legacy": 2, "prefixes": [3], "server_first": True},
+               {"legacy": None, "prefixes": [1, 2], "file": True}, {"legacy": 1, "prefixes": [], "file": True},
+               {"legacy": None, "prefixes": [], "file": True, "server_after": True}]
+    for _ in range(nrandom):
+        k = rng.choice([None, None] + list(range(0, n + 2)))
+        pre = sorted(rng.sample(range(0, n + 1), rng.randint(0, 2)))
+        if k is not None:
+            pre = [j for j in pre if j >= k]
+        starts.append({"legacy": k, "prefixes": pre, "file": rng.random() < 0.3, "server_first": rng.random() < 0.3,
+                       "server_after": rng.random() < 0.3})
+    ref = None
+    for st in starts:
+        case = {"production": True, "start": st}
+        kind = start_kind(st)
+        out.count("production_start:" + kind + (":file" if st.get("file") else ""))
+        path = ctx.pkgs.db_path(life=True) if st.get("file") else ":memory:"
+        conn: Any = sqlite3.connect(path, factory=Conn)
+        ctx.op("fresh", canon(conn), case)
+        if st["legacy"] is not None:
+            for sql in [t for _n, t, v in order0 if 0 < v <= st["legacy"]]:
+                ctx.op("ddl " + enc_stmts(parse_sql(sql)), real_ddl(conn, sql), case)
+            conn.execute(f"PRAGMA user_version={int(st['legacy'])}")
+            conn.commit()
+            ctx.op(f"setuv {int(st['legacy'])}", canon(conn), case)
+        bad = False
+        for j in st["prefixes"]:
+            mod_j = ctx.pkgs.make([(nm, t) for nm, t, _v in order0[:j]] + [("__init__.py", "")])
+            lst = ctx.pkgs.listing(mod_j)
+            r, raised = real_run(ctx, conn, [(real[0][0], mod_j)], {t: nm for nm, t in lst}, None)
+            ctx.op("run " + enc_sources([(real[0][0], lst)]), r, case)
+            bad = bad or raised
+        if st.get("server_first"):  # a plain server start (default sources) before DBOS is switched on
+            r, raised = real_run(ctx, conn, None, texts, None)
+            ctx.op("runshipped", r, case)
+            bad = bad or raised
+        finals = []
+        for _rep in range(2):
+            if st.get("file"):  # a process start: connect / run / close, nothing committed by the caller, re-open
+                conn.close()
+                res = life_session(ctx, path, real, texts, stock=True)
+                conn = sqlite3.connect(path, factory=Conn)
+                r = ("ok " if res["status"] == "ok" else res["status"] + " ") + canon(conn) + f" pending={int(res['pending'])}"
+                ctx.op("c28prodsession", r, case)
+                raised = res["status"] != "ok"
+            else:
+                r, raised = real_run(ctx, conn, real, texts, None)
+                ctx.op("c28prodrun", r, case)
+            out.evaluations += 1
+            finals.append((r, raised, raw_dump(conn)))
+        if st.get("server_after"):  # the server's own default run afterwards must not disturb anything
+            r, raised = real_run(ctx, conn, None, texts, None)
+            ctx.op("runshipped", r, case)
+            finals.append((r, raised, raw_dump(conn)))
+        conn.close()
+        (r1, raised1, d1) = finals[0]
+        if raised1:
+            if not bad:
+                out.violations.append(Violation(f"C28/production_run_raises/{kind}", f"run_migrations(sources=_SQLITE_SOURCES) raised from start {st_brief(st)}: {r1[:200]}", case))
+            continue
+        out.nontrivial(("production", kind, r1.split(" pending=")[0]))
+        key = (sorted(map(tuple, d1["user"])), d1["book"])
+        if ref is None:
+            ref = key
+        elif key != ref:
+            out.violations.append(Violation(f"C28/production_schema_differs/{kind}", f"final sqlite_master of the two-package run from start {st_brief(st)} differs from a fresh database's", case))
+        for (p, _m), order in zip(real, orders):
+            for _n, _t, v in order:
+                cnt = sum(1 for row in d1["rows"] if row[0] == p and row[1] == v)
+                if cnt != 1:
+                    out.violations.append(Violation(f"C28/production_version_count/{kind}", f"version {p}:{v} recorded {cnt} times by the two-package run from start {st_brief(st)}", case))
+                    break
+        for (r2, raised2, d2) in finals[1:]:
+            if raised2 or d2 != d1:
+                out.violations.append(Violation(f"C28/production_second_run_changes/{kind}", f"a further run {'raised' if raised2 else 'changed the database'} after the two-package run (start {st_brief(st)})", case))
+                break
+    out.sample({"family": "production", "sources": real, "versions": [[v for _n, _t, v in o] for o in orders]}, cap=12)
+
+
+
 def bare_run(ctx: Ctx, conn: sqlite3.Connection, sources: Any) -> tuple[str, bool]:
     try:
         if sources is None:
@@ -1330,6 +1489,7 @@ def run(env: Env) -> Outcome:
             out.evaluations += 1
         for fam in fams:
             run_family(ctx, fam)
+        run_production(ctx, rng, min(env.budget(12, 200), 600))
         try:
             model_out = Driver("migrate").run(ctx.ops)
         except Exception as e:  # model unavailable
